@@ -144,6 +144,27 @@ _FRESH_CODE = ("import sys, json, pickle, base64; from mc import runner; ctx = j
                "print('@@RESULT@@' + base64.b64encode(pickle.dumps(a)).decode())")
 
 
+def _no_aslr_prefix():
+    """`setarch -R` switches address-space randomisation off for the child, so that a fresh
+    interpreter started twice with the same arguments and environment allocates every object at
+    the same address both times (object ids and their reuse pattern are then reproducible)."""
+    import platform
+    import shutil
+    import subprocess
+    exe = shutil.which("setarch")
+    if not exe:
+        return []
+    pre = [exe, platform.machine(), "-R"]
+    try:
+        ok = subprocess.run(pre + ["true"], capture_output=True, timeout=20).returncode == 0
+    except Exception:  # noqa: BLE001
+        ok = False
+    return pre if ok else []
+
+
+_NO_ASLR = _no_aslr_prefix()
+
+
 def fresh_call(ctx, timeout=3600):
     """Runs one shard in a brand-new interpreter (always bootstrapped the same way, so that even
     memory-address reuse patterns repeat) and returns its Acc, or a string on failure."""
@@ -152,7 +173,7 @@ def fresh_call(ctx, timeout=3600):
     import subprocess
     ctx = {k: ctx[k] for k in ("fn_mod", "fn_name", "shard", "nshards", "tier", "seed", "extra", "warm")}
     fresh = True
-    p = subprocess.run([sys.executable, "-W", "ignore", "-c", _FRESH_CODE],
+    p = subprocess.run(_NO_ASLR + [sys.executable, "-W", "ignore", "-c", _FRESH_CODE],
                        input=json.dumps(ctx, sort_keys=True),
                        capture_output=True, text=True, cwd=env.VERIF, timeout=timeout)
     if p.returncode != 0 or "@@RESULT@@" not in p.stdout:
